@@ -14,9 +14,36 @@ Counter = collections.Counter
 OP_BUDGET = 30000        # desper lines per top-level operation (liveness)
 
 
+class QueryingId:
+    """An entity id whose hash looks something up in the world (a handle
+    object resolving itself): hashing it anywhere - also in the middle of a
+    query of the world - runs another, read-only, query."""
+    world = None
+
+    def __init__(self, n):
+        self.n = n
+
+    def __hash__(self):
+        w = QueryingId.world
+        if w is not None:
+            w.has_component(0, object)
+            w.get_component(0, type(self))
+        return hash(('q', self.n))
+
+    def __eq__(self, other):
+        return isinstance(other, QueryingId) and other.n == self.n
+
+    def __repr__(self):
+        return f'Q{self.n}'
+
+
 def dec_id(x):
     """Scenario encoding of entity ids -> Python hashable."""
     if isinstance(x, dict):
+        if 'none' in x:
+            return None         # (reachable through add_component only)
+        if 'q' in x:
+            return QueryingId(x['q'])
         # ids of one type that cannot be ordered among themselves
         if 'cx' in x:
             return complex(*x['cx'])
@@ -180,6 +207,36 @@ class Actors:
         elif spec.get('eq') == 'unhashable':    # __eq__ only (a dataclass)
             ns['__eq__'] = lambda a, b: a is b
             ns['__hash__'] = None
+        deco_ = spec.get('deco') or {}
+        def anc(c, seen=()):
+            out = set()
+            for b in self.config['classes'][c]['bases']:
+                out |= {b} | anc(b)
+            return out
+        if deco_.get('maps') and not spec.get('ctrl') and not spec.get(
+                'inst_cb') and not any(i in c['bases']
+                                       for c in self.config['classes']) \
+                and not any(self.config['classes'][a].get('inst_events')
+                            or self.config['classes'][a].get('inst_cb')
+                            or self.config['classes'][a].get('ctrl')
+                            for a in anc(i)):
+            # the events are mapped to methods of other names; methods that
+            # are *named* like the events exist as well (inherited helpers)
+            # and must never run
+            it2 = self.interp
+
+            def stray(name):
+                def f(self, *a):
+                    it2.cb('wrong_callback', self._label, name)
+                return f
+            for name in deco_['maps']:
+                ns[name] = stray(name)
+            self.interp.probes['methods_named_like_unmapped_events'] += 1
+        meta = type
+        if spec.get('falsy_cls') and not spec.get('ctrl'):
+            # the class object itself is falsy (a metaclass with __len__)
+            meta = type('FalsyMeta', (type,), {'__len__': lambda cls: 0})
+            self.interp.probes['falsy_component_class'] += 1
         if spec.get('also_proc'):
             # a component whose class is a Processor as well (a system
             # object stored on an entity): for the world it is what it was
@@ -188,9 +245,12 @@ class Actors:
             ns['process'] = lambda self, dt=1: None
             self.interp.probes['component_class_is_a_processor_too'] += 1
         try:
-            cls = type(f'K{i}', bases, dict(ns))
+            cls = meta(f'K{i}', bases, dict(ns))
         except TypeError:
-            cls = type(f'K{i}', (bases[0],), dict(ns))
+            try:
+                cls = type(f'K{i}', bases, dict(ns))
+            except TypeError:
+                cls = type(f'K{i}', (bases[0],), dict(ns))
         deco = spec.get('deco')
         if deco is not None:
             cls = self.desper.event_handler(*deco.get('names', []),
@@ -207,6 +267,14 @@ class Actors:
         bases = tuple(self.make_pclass(b) for b in spec['bases'])
         sbases = tuple(self.shadow[b] for b in spec['bases'])
         ns = {}
+        if spec.get('posonly'):
+            # a processor whose process() takes its argument positionally
+            # only (no parameter that could be passed as dt=...)
+            it3 = self.interp
+
+            def process(self, elapsed=1, /):
+                it3.proc_called(self, elapsed)
+            ns['process'] = process
         if spec.get('prio') is not None:
             ns['priority'] = spec['prio']
         try:
@@ -291,6 +359,7 @@ class Interp:
         else:
             self.w = self.desper.World()
         self.w2 = None
+        QueryingId.world = self.w
         kernel.label(self.w, 'w')
         self.ids = [dec_id(x) for x in self.cfg['ids']]
         # model
@@ -1214,6 +1283,36 @@ class Interp:
         return [j for q, j in self.procs
                 if issubclass(self.actors.pclasses[self.cfg['pinsts'][j]], T)]
 
+    def op_deep_query(self, op, start):
+        """A chain of n classes, each deriving from the previous one; a
+        component of the last one is found by a query for the first."""
+        n = op[1]
+        if self.depth:
+            return 'skip'
+        d = self.desper
+        resume = kernel.StepBudget.pause()
+        try:
+            base = cls = type('Link0', (), {})
+            for k in range(1, n):
+                cls = type(f'Link{k}', (cls,), {})
+            w = d.World()
+            o = cls()
+            e = w.create_entity(o)
+            got = w.get(base)
+            ok = (got == [(e, o)] and w.has_component(e, base)
+                  and w.get_component(e, base) is o)
+            r = w.remove_component(e, base)
+        except RecursionError as ex:
+            self.fail('C06', 'op_raised', f'a query by the base of a chain '
+                      f'of {n} classes raised RecursionError')
+        finally:
+            resume()
+        self.probes['inheritance_chain>=990'] += n >= 990
+        if not ok or r is not o:
+            self.fail('C06', 'missing_match', f'a chain of {n} classes: the '
+                      f'component of the last class is not found by a query '
+                      f'for the first (get -> {len(got)} pairs)')
+
     def op_mass_delete(self, op, start):
         """A separate world with n plain entities, all of them deleted
         (deferred) in one go: the next process() removes every one of them
@@ -1945,7 +2044,8 @@ DECOS = [
 ]
 PDECOS = [None, {'names': ['on_add', 'on_remove']}, {'names': ['probe']},
           {'names': ['on_add']}, {'names': ['on_remove', 'probe']}]
-ID_POOL = [1, 2, 3, 4, 0, 'a', '', [1, 2], 5, {'cx': [1, 2]}, {'cx': [0, 1]},
+ID_POOL = [1, 2, 3, 4, 0, 'a', '', [1, 2], 5, {'none': 1}, {'q': 1}, {'q': 2},
+           {'cx': [1, 2]}, {'cx': [0, 1]},
            {'fs': [1]}, {'fs': [2]}, [1, 'a'], ['a', 1]]
 DTS = [0, 0.25, 0.5, 1, 2, 7]
 
@@ -2036,6 +2136,8 @@ def gen_config(prop, rng):
             spec['abstract'] = True
         if prop == 'C02' and not bases and rng.random() < .06:
             spec['also_proc'] = True
+        elif prop in ('C01', 'C06') and not bases and rng.random() < .06:
+            spec['falsy_cls'] = True
         classes.append(spec)
     insts = []
     if ladder:
@@ -2064,10 +2166,15 @@ def gen_config(prop, rng):
         pclasses.append({'bases': bases, 'prio': prio, 'deco': deco})
         if prop in ('C06', 'C07') and rng.random() < .05:
             pclasses[-1]['abstract'] = True
+        if prop == 'C07' and rng.random() < .08:
+            pclasses[-1]['posonly'] = True
     pinsts = []
     for i in range(npc):
         pinsts += [i] * rng.choice([1, 2])
     ids = [x for x in ID_POOL if rng.random() < .75] or [1, 2]
+    if rng.random() > .12:      # (ids whose hash queries the world: rarely)
+        ids = [x for x in ids if not (isinstance(x, dict) and 'q' in x)] \
+            or [1, 2]
     faults = [f for f in ('raise', 'ghost') if rng.random() < .5]
     if rng.random() < 1 / 3:
         faults = []
@@ -2204,6 +2311,10 @@ def gen_op(kind, sh, rng, cfg, state):
     live = list(sh.rows)
 
     def enc(eid):
+        if eid is None:
+            return {'none': 1}
+        if isinstance(eid, QueryingId):
+            return {'q': eid.n}
         if isinstance(eid, complex):
             return {'cx': [int(eid.real), int(eid.imag)]}
         if isinstance(eid, frozenset):
@@ -2226,7 +2337,8 @@ def gen_op(kind, sh, rng, cfg, state):
             picked.append(i)
             if len(picked) >= k:
                 break
-        eid = None if kind == 'create' else rng.choice(ids)
+        eid = None if kind == 'create' else rng.choice(
+            [x for x in ids if x != {'none': 1}] or [1])
         return ['create', eid, picked]
     if kind == 'add':
         if not free:
@@ -2415,6 +2527,9 @@ def generate(prop, run_seed, tier='quick', tolerate=frozenset()):
                     if script:
                         scripts[f'proc:{pi}:{cnt}'] = script
         sh.apply(op)
+    if prop == 'C06' and crng.random() < .01:
+        ops.insert(crng.randint(0, len(ops)),
+                   ['deep_query', crng.choice([300, 1000, 1500, 2500])])
     if prop == 'C02' and crng.random() < .08:
         # a component that listens to on_add only is attached and detached
         # while dispatching is disabled, and the program forgets it: the
